@@ -199,6 +199,14 @@ class Date:
         # Retrieve the offset from REF_SCALE for the current date
         offset = scale.offset(mjd, self.REF_SCALE, eop)
 
+        if scale.name != "UTC":
+            # EOP are tabulated per UTC day. Close to midnight, the clock of an other
+            # scale is already (or still) on the neighbouring day.
+            utc_s = round(s + scale.offset(mjd, "UTC", eop), 6)
+            if utc_s < 0 or utc_s >= 86400:
+                eop = EopDb.get(d + utc_s / 86400.0)
+                offset = scale.offset(mjd, self.REF_SCALE, eop)
+
         d += int((s + offset) // 86400)
         s = (s + offset) % 86400.0
 
